@@ -128,13 +128,29 @@ fn rx_step(ignore_mac: bool, shape: Option<(usize, u8)>) {
         "witness: accepted downlink (payload delivered where the shape has one) / rejected as unparseable for shapes that cannot parse");
     kani::cover!(!can_accept || (parses && !accept && !oversize), "witness: rejected although parseable");
 
+    if ignore_mac {
+        // Class C listening (Mac::handle_rxc): the response goes to async_device::rxc_listen, whose
+        // conversion ListenResponse::from panics on every response kind but these (DESIGN C04-H7),
+        // and to between_windows, where it replaces the outcome of the send() in progress
+        crate::vcheck!(matches!(resp, Response::NoUpdate | Response::DownlinkReceived(_) | Response::SessionExpired),
+            "C04: a frame received while listening in Class C produces a response the listen front-end cannot convert (ListenResponse::from panics)");
+    }
     if oversize {
         // C07: "may additionally end the current receive procedure as if it had timed out"
         let mut twin = pre.clone();
         let mut tcfg = cfg0;
         let tr = twin.rx2_complete(&mut tcfg, &region);
-        crate::vcheck!(session_same(&s, &twin) && mc::cfg_same(&cfg, &tcfg), "C07: an oversized frame may only act like a receive timeout");
-        crate::vcheck!(same_resp(&resp, &tr), "C07: an oversized frame must be answered like a receive timeout");
+        let like_timeout = session_same(&s, &twin) && mc::cfg_same(&cfg, &tcfg) && same_resp(&resp, &tr);
+        if ignore_mac {
+            // outside the Class A windows there is no receive procedure to end: the frame is simply
+            // not accepted (acting like a timeout is tolerated where the front-end can report it)
+            let untouched = matches!(resp, Response::NoUpdate) && session_same(&s, &pre) && mc::cfg_same(&cfg, &cfg0);
+            crate::vcheck!(untouched || like_timeout, "C07: an oversized frame heard in Class C must change nothing (or at most act like a receive timeout)");
+            crate::vcheck!(dl.len() == 0, "C07: an oversized frame must not deliver data");
+        } else {
+            crate::vcheck!(session_same(&s, &twin) && mc::cfg_same(&cfg, &tcfg), "C07: an oversized frame may only act like a receive timeout");
+            crate::vcheck!(same_resp(&resp, &tr), "C07: an oversized frame must be answered like a receive timeout");
+        }
         kani::cover!(true, "info: oversized frame");
     } else if accept {
         let n = n.unwrap();
@@ -256,11 +272,11 @@ rx_shape!(rx_a_len28_fopts15, false, 28, 15);
 //@h id=rx_a_len20_fopts15 props=C05,C07 tier=quick build=dev-eu868 cost=30 timeout=900
 //@bounds Class A window; 20 bytes but FOptsLen 15 (FHDR truncated): must be rejected without effect
 rx_shape!(rx_a_len20_fopts15, false, 20, 15);
-//@h id=rx_c_len30 props=C05,C06,C07,C08,C12 tier=quick build=dev-eu868 cost=90 timeout=900
+//@h id=rx_c_len30 props=C04,C05,C06,C07,C08,C12 tier=quick build=dev-eu868 cost=90 timeout=900
 //@bounds Class C listening (ignore_mac); 30 bytes, FOptsLen 0
 //@assumes Session::handle_downlink_macs is stubbed by a no-op; AES/CMAC are uninterpreted functions
 rx_shape!(rx_c_len30, true, 30, 0);
-//@h id=rx_c_len17_fopts3 props=C05,C06,C07,C08,C12 tier=quick build=dev-eu868 cost=60 timeout=900
+//@h id=rx_c_len17_fopts3 props=C04,C05,C06,C07,C08,C12 tier=quick build=dev-eu868 cost=60 timeout=900
 //@bounds Class C listening (ignore_mac); 17 bytes, FOptsLen 3, FPort + 1 byte
 //@assumes Session::handle_downlink_macs is stubbed by a no-op; AES/CMAC are uninterpreted functions
 rx_shape!(rx_c_len17_fopts3, true, 17, 3);
